@@ -384,7 +384,8 @@ def kill_case(broker: str):
     return st.fixed_dictionaries({"broker": st.just(broker), "scenario": st.integers(0, len(POOL) - 1),
                                   "frac": st.floats(0.0, 1.0, allow_nan=False),
                                   "early_frac": st.floats(0.05, 0.95), "late_extra": st.sampled_from([0.002, 0.1, 0.9, 3.0]),
-                                  "timeout": st.sampled_from([2, 3])})
+                                  "timeout": st.sampled_from([2, 3]), "mixed": st.booleans(),
+                                  "long_timeout": st.sampled_from([30, 600, 3600])})
 
 
 def enumerate_kill(broker: str):
@@ -395,7 +396,8 @@ def enumerate_kill(broker: str):
             base = scenario_for(broker, idx)
             lo, hi = dry_run(base)
             for k in range(lo, hi + 1):
-                yield {"broker": broker, "scenario": idx, "step": k, "early_frac": 0.5, "late_extra": 0.002 if k % 2 else 0.9, "timeout": 2}
+                yield {"broker": broker, "scenario": idx, "step": k, "early_frac": 0.5, "late_extra": 0.002 if k % 2 else 0.9, "timeout": 2,
+                       "mixed": k % 3 == 0, "long_timeout": 600}
     return gen
 
 
@@ -463,36 +465,34 @@ async def _kill(loop, case, base, k, out: Outcome):
         before[i] = (t_take - vclock._EPOCH_TS, p.params)
     if not before:
         return
-    timeout = min(prm.execution_timeout.total_seconds() for _, prm in before.values())
-    first_deadline = min(t + prm.execution_timeout.total_seconds() for t, prm in before.values())
-    # (1) maintenance before the timeout elapsed: nothing is returned
-    t1 = t_kill + (first_deadline - t_kill) * case["early_frac"]
-    await asyncio.sleep(max(0.0, t1 - loop.time()))
-    c1 = env.connection("m1", None, buckets=False)
-    await c1.connect()
-    await asyncio.sleep(0.01)
-    pr1 = env.probe()
-    for i, (t_take, prm) in before.items():
-        deadline = t_take + prm.execution_timeout.total_seconds()
-        if loop.time() < deadline - 0.001 and [p.kind for p in pr1.get(i, [])] != ["held"]:
-            out.v("timeout-early-release", f"worker died at {t_kill:.6f}; message {i} taken at {t_take:.6f} (timeout ends {deadline:.6f}) was "
-                  f"returned by maintenance at {loop.time():.6f}: {[p.short() for p in pr1.get(i, [])]}")
-    # (2) after every timeout elapsed: one maintenance run makes each deliverable exactly once, counter unchanged
-    last_deadline = max(t + prm.execution_timeout.total_seconds() for t, prm in before.values())
-    await asyncio.sleep(max(0.0, last_deadline + case["late_extra"] - loop.time()))
-    c2 = env.connection("m2", None, buckets=False)
-    await c2.connect()
-    await asyncio.sleep(0.01)
+    deadlines = sorted({round(t + prm.execution_timeout.total_seconds(), 6) for t, prm in before.values()})
+    # maintenance runs: before any timeout elapsed; after each distinct deadline (others may still be pending)
+    times = [t_kill + (deadlines[0] - t_kill) * case["early_frac"]] + [d + case["late_extra"] for d in deadlines]
+    for n, t_m in enumerate(times):
+        await asyncio.sleep(max(0.0, t_m - loop.time()))
+        cm = env.connection(f"m{n}", None, buckets=False)
+        await cm.connect()
+        await asyncio.sleep(0.01)
+        prn = env.probe()
+        now = loop.time()
+        for i, (t_take, prm) in before.items():
+            deadline = t_take + prm.execution_timeout.total_seconds()
+            places = prn.get(i, [])
+            kinds = [p.kind for p in places]
+            if now < deadline - 0.001:
+                if kinds != ["held"]:
+                    out.v("timeout-early-release", f"worker died at {t_kill:.6f}; message {i} taken at {t_take:.6f} (timeout ends "
+                          f"{deadline:.6f}) was returned by maintenance at {now:.6f}: {[p.short() for p in places]}")
+            elif now > deadline + 0.001:
+                if len(places) != 1 or places[0].kind not in ("waiting", "delayed"):
+                    out.v("timeout-not-released", f"worker died at {t_kill:.6f}; message {i} taken at {t_take:.6f} should be deliverable "
+                          f"again after maintenance at {now:.6f} (its timeout ended {deadline:.6f}; other in-flight deadlines: "
+                          f"{deadlines}); found {[p.short() for p in places]}")
+                elif places[0].params is not None and places[0].params.retries.already_tried != prm.retries.already_tried:
+                    out.v("retry-counter-changed", f"message {i} recovered with already_tried={places[0].params.retries.already_tried}, "
+                          f"was {prm.retries.already_tried}", broker="redis")
     pr2 = env.probe()
-    for i, (t_take, prm) in before.items():
-        places = pr2.get(i, [])
-        if len(places) != 1 or places[0].kind not in ("waiting", "delayed"):
-            out.v("timeout-not-released", f"worker died at {t_kill:.6f}; message {i} taken at {t_take:.6f} should be deliverable again after "
-                  f"maintenance at {loop.time():.6f} (timeout ended {t_take + prm.execution_timeout.total_seconds():.6f}); found "
-                  f"{[p.short() for p in places]}")
-        elif places[0].params is not None and places[0].params.retries.already_tried != prm.retries.already_tried:
-            out.v("retry-counter-changed", f"message {i} recovered with already_tried={places[0].params.retries.already_tried}, "
-                  f"was {prm.retries.already_tried}", broker="redis")
+    c2 = cm
     # deliverable exactly once
     cons = c2.message_broker.get_consumer("q0", None, None, MessageCategory.NORMAL)
     await cons.start()
@@ -515,8 +515,9 @@ async def _kill(loop, case, base, k, out: Outcome):
 def run_kill(case: dict) -> Outcome:
     out = Outcome()
     base = scenario_for(case["broker"], case["scenario"])
-    for j in base["jobs"]:
-        j["timeout"] = case["timeout"]
+    for i, j in enumerate(base["jobs"]):
+        # execution timeouts are per message: the first job may have a long one, the others short ones
+        j["timeout"] = case.get("long_timeout", case["timeout"]) if (i == 0 and case.get("mixed")) else case["timeout"]
     try:
         lo, hi = dry_run(base)
     except (vclock.StepLimit, vclock.Deadlock) as e:
